@@ -430,7 +430,7 @@ def run(tier, seed):
         "server does; without it the library cannot build a numeric-array partition at all) and has the "
         "array item as last axis of every measure; theorems are about the layout (any per-cell statistic), "
         "the respondent-level value of the statistic is the Python oracle's",
-        "numeric arrays by three grouping axes are an OPEN FINDING (C01-numarr-four-axes), reported as "
+        "numeric arrays by three grouping axes were the genuine defect C01-numarr-four-axes (repaired in /repo; the shape is forced in every run and must agree with the survey oracle); formerly reported as "
         "KNOWN-FINDING",
         "float64 vs exact rationals: relative tolerance 1e-9",
     ]
